@@ -78,8 +78,9 @@ class PatternValidator:
             rules: Rules dictionary containing allow patterns
         """
         with suppress(KeyError):
-            for pattern in rules["allow"]:
-                self._validate_pattern(pattern)
+            for allow_item in rules["allow"]:
+                # An entry may be a plain pattern or, like a deny entry, a mapping with 'pattern'
+                self._validate_pattern(_extract_pattern(allow_item))
 
     def _validate_deny_patterns(self, rules: dict[str, Any]) -> None:
         """Validate deny patterns in a rules dict.
